@@ -9,6 +9,7 @@ CONSTANTS
   MaxTip = 100
   MaxRestart <- Unb
   MaxPR = 100
+  Drops = TRUE
   MaxDup = 100
   MaxAdv = 100
   Calm = FALSE
